@@ -177,6 +177,40 @@ theorem C19_stats_disabled_records_nothing (c : Conn) (b64 : Str → Str) (call 
   simp [Stats.startTimer, Stats.stopTimer, hen, pure, Except.pure] at hstop
   exact hstop.symm
 
+/-- the statistics after any history of operations: for every operation name, the counter grew by exactly the
+    number of calls of that name in the history (failed or not) -/
+theorem C19_stats_history (b64 : Str → Str) (n : Str) : ∀ (calls : List (Call × Core)) (c : Conn),
+    (∀ p ∈ calls, Sane p.1 p.2) → srvOk c.lastSrvTime → c.stats.enabled = true →
+    ((runOpsConn Variant.fixed c b64 calls).stats.get n).count =
+      (c.stats.get n).count + (calls.filter (fun p => decide (p.1.method = n))).length
+  | [], _, _, _, _ => by simp [runOpsConn]
+  | p :: rest, c, hs, hsrv, hen => by
+    have hsp := hs p (by simp)
+    obtain ⟨_, hsrv', _, _, st, hstop, hst⟩ := runOp_spec c b64 p.1 p.2 hsp hsrv
+    have hen' : (runOp Variant.fixed c b64 p.1 p.2).conn.stats.enabled = true := by
+      rw [hst, stopTimer_enabled _ _ _ _ _ _ st hstop, startTimer_enabled, hen]
+    have ih := C19_stats_history b64 n rest (runOp Variant.fixed c b64 p.1 p.2).conn
+      (fun q hq => hs q (by simp [hq])) hsrv' hen'
+    obtain ⟨h1, _, h3⟩ := C19_stats_once c b64 p.1 p.2 hsp hsrv hen
+    simp only [runOpsConn, List.filter_cons]
+    rw [ih]
+    by_cases hn : p.1.method = n
+    · subst hn
+      simp only [decide_true, if_true, List.length_cons]
+      rw [h1]
+      omega
+    · have hn' : n ≠ p.1.method := fun e => hn e.symm
+      simp only [hn, decide_false, Bool.false_eq_true, if_false]
+      rw [h3 n hn']
+
+/-! ### disabled recorders -/
+
+/-- recorders that are disabled (recorder.disable(), conn.operation_recorder_enabled = False) emit no log record
+    and no test case during an operation — for every input, response and code variant -/
+theorem C19_disabled_recorders_silent (v : Variant) (c : Conn) (b64 : Str → Str) (call : Call) (core : Core)
+    (hd : ∀ r ∈ c.recorders, disabledRec r) : (runOp v c b64 call core).events = [] :=
+  runOp_silent v c b64 call core hd
+
 /-! ### last_raw_reply / last_raw_request -/
 
 /-- a 200 response with an acceptable content type: last_raw_reply is exactly the bytes received and
